@@ -76,6 +76,14 @@ class Ctx:
         shutil.rmtree(self.scratch, ignore_errors=True)
 
 
+def _forget_memo(reused_cache: bool):
+    """Empty this run's memo directory so that the second of two replays recomputes."""
+    root = os.environ.get("VERIF_CACHE_ROOT")
+    if root and not reused_cache:
+        for p in Path(root).iterdir():
+            shutil.rmtree(p, ignore_errors=True)
+
+
 def _viol_key(v: dict) -> str:
     if v.get("key"):
         return v["key"]
@@ -96,6 +104,22 @@ def main(argv=None):
         return 0
     prop = a.prop.upper()
     seed = int(os.environ.get("VERIF_SEED", "0") or 0)
+    # Memoised reference fronts / mapper runs live in a directory made for THIS invocation
+    # and removed with it: every number in the evidence file is work this run performed on
+    # the current working tree, whatever ran before.  (VERIF_CACHE_ROOT=<dir> keeps a
+    # persistent one while developing a check; such evidence is marked reused_cache.)
+    own_cache = None
+    if not os.environ.get("VERIF_CACHE_ROOT"):
+        own_cache = tempfile.mkdtemp(prefix=f"verif-cache-{prop}-")
+        os.environ["VERIF_CACHE_ROOT"] = own_cache
+    try:
+        return _main(a, prop, seed, reused_cache=own_cache is None)
+    finally:
+        if own_cache:
+            shutil.rmtree(own_cache, ignore_errors=True)
+
+
+def _main(a, prop, seed, reused_cache=False):
     mod = importlib.import_module(f"mc.checks.{prop.lower()}")
 
     if a.replay:
@@ -103,6 +127,7 @@ def main(argv=None):
         ctx = Ctx(prop, rec.get("tier", "quick"), seed)
         try:
             r1 = mod.replay(ctx, rec)
+            _forget_memo(reused_cache)
             r2 = mod.replay(ctx, rec)
         finally:
             ctx.cleanup()
@@ -162,6 +187,7 @@ def main(argv=None):
                 try:
                     v.setdefault("tier", a.tier)  # replay functions rebuild the tier's spec family
                     r1 = mod.replay(c2, v)
+                    _forget_memo(reused_cache)
                     r2 = mod.replay(c2, v)
                     v["replay_deterministic"] = (
                         json.dumps(ev.jsonable(r1), sort_keys=True)
@@ -194,6 +220,8 @@ def main(argv=None):
         "harness_errors": len(tot.errors) + (1 if harness_error else 0),
     }
     coverage.update(ctx.extra_cov)
+    if reused_cache:
+        coverage["reused_cache"] = os.environ.get("VERIF_CACHE_ROOT")
     try:
         ev.write_evidence(prop, a.tier, seed, coverage, list(getattr(mod, "ASSUMPTIONS", [])),
                           wall, len(unlisted) + n_unkept)
